@@ -85,7 +85,9 @@ type Report struct {
 // StepOverrun is the panic value raised inside a task that exceeded the step budget.
 type StepOverrun struct{ Steps int64 }
 
-func (s StepOverrun) Error() string { return fmt.Sprintf("simrt: step budget exceeded (%d steps)", s.Steps) }
+func (s StepOverrun) Error() string {
+	return fmt.Sprintf("simrt: step budget exceeded (%d steps)", s.Steps)
+}
 
 // Deadlock is the panic value raised when every live task is blocked on a lock.
 type Deadlock struct{}
